@@ -2403,3 +2403,22 @@ package sarama
 // (dual bodies, the iteration count is the length token that precedes the loop). The wire grammars of both
 // functions are extracted from the code on every run (obligation wire/<Type>/dual).
 //@ wiredual props C09
+
+// (C09) OffsetRequest: the replica id on the wire is the one set (or -1), and the decoder restores "set" exactly
+// for the ids a client can set (>= 0); the token-level duality of the pair is wire/OffsetRequest/dual.
+//@ func (r *OffsetRequest) SetReplicaID(id) props C09
+//@   ensures[sets] r.replicaID == id && r.isReplicaIDSet
+//@   modifies r.replicaID, r.isReplicaIDSet
+//@ func (r *OffsetRequest) encode(pe) props C09
+//@   returns err
+//@   callsite packetEncoder.putInt32#0: requires[replica_id_written] r.isReplicaIDSet && $arg0 == r.replicaID
+//@   callsite packetEncoder.putInt32#1: requires[replica_id_written] !r.isReplicaIDSet && $arg0 == -1
+//@   nosafety
+//@ func (r *OffsetRequest) decode(pd, version) props C09
+//@   returns e
+//@   requires pd.remaining() >= 0
+//@   per_return
+//@   loop 0: invariant pd.remaining() >= 0
+//@   loop 1: invariant pd.remaining() >= 0
+//@   ensures[replica_id_restored] e == nil ==> (replicaID >= 0 ==> r.isReplicaIDSet && r.replicaID == replicaID) && (replicaID < 0 ==> r.isReplicaIDSet == old(r.isReplicaIDSet) && r.replicaID == old(r.replicaID))
+//@   nosafety
